@@ -316,6 +316,28 @@ func inject(k *h.Case, g *spec.Gen, prog *spec.Program, baseOut string) *injecti
 			insertStmt(bc.b, r.IntN(safeLen(bc.b)+1), st)
 			return &injection{kind, []int{st.ID}}
 		default:
+			if scs := scriptsOf(prog); len(scs) >= 2 && r.IntN(3) == 0 {
+				// a text statement spelled like a sub-label of an EARLIER script, and that name as a label
+				// statement in a later script: still "a script label equal to a text label"
+				si := r.IntN(len(scs) - 1)
+				later := scs[si+1+r.IntN(len(scs)-si-1)]
+				name := fmt.Sprintf("%s_%d", scs[si].Entry, 1+r.IntN(6))
+				var cands []blockCtx
+				for _, bc := range blocks {
+					if bc.script == later.Entry && !bc.single && !bc.inPory {
+						cands = append(cands, bc)
+					}
+				}
+				if len(cands) > 0 {
+					it := &spec.TextItem{ID: prog.NewID(), Name: name, Val: &spec.TextVal{ID: prog.NewID(), Parts: []string{"user text"}}}
+					addItem(it)
+					bc := cands[r.IntN(len(cands))]
+					st := &spec.Label{ID: prog.NewID(), Name: name}
+					insertStmt(bc.b, r.IntN(safeLen(bc.b)+1), st)
+					k.Count("text_named_like_sublabel_of_other_script", 1)
+					return &injection{kind, []int{st.ID}}
+				}
+			}
 			var names []string
 			for _, t := range lm.Texts {
 				names = append(names, t.Label)
